@@ -119,6 +119,10 @@ func cmdVerify(args []string) {
 			continue
 		}
 		all := append(append([]*Obligation{}, obs...), covers...)
+		fmt.Printf("%s: generated %d obligations in %.1fs\n", fn, len(all), time.Since(t0).Seconds())
+		if os.Getenv("GOVC_NOSOLVE") != "" {
+			continue
+		}
 		DischargeAll(all, st, cfg, runtime.NumCPU())
 		nok := 0
 		for _, o := range all {
